@@ -31,7 +31,7 @@ For each combinator there is
   behave like tables (SST cursors, lazy cursors, other combinators), not only reference cursors.
 
 `Concat.next`, `Concat.seek`, `Bounds.prev` are the operations after the repairs of D-2, D-18,
-D-19 (`fixes/d2-concat-next.diff`, `fixes/d18-concat-seek.diff`, `fixes/d19-bounds-prev.diff`);
+D-19 (`/repo fix f073faf`, `/repo fix c049384`, `/repo fix 2b6676c`);
 the operations as they were are `Concat.nextOld`, `Concat.seekOld`, `Bounds.prevOld`
 (`Blue/Model/AsIs.lean`), with the three counterexample theorems at the end.  The correspondence
 harness runs whichever variant the code under test exhibits on the three minimal inputs.
